@@ -64,6 +64,16 @@ def run(ctx):
             add(0, 1 | (1 << 8), '-', hd, 'easy preset 1 on 2.3 MiB of ' + nm, mode=3, dec=('xz', 0))
             add(3, 0, 'lzma2:dict=1MiB,mode=fast,mf=hc3,nice=%d' % rng.choice([2, 16, 100]), hd, 'raw nice<273 on 2.3 MiB of ' + nm, mode=0, dec=('raw', 'lzma2:dict=1MiB'))
             add(1, 6 | (1 << 8) | (1 << 12), '-', hd, 'mt preset 6 one Block on 2.3 MiB of ' + nm, mode=0, dec=('xz', 0))
+        # data that repeats with a period around the dictionary size: the farthest match a match finder may offer is
+        # exactly dict_size back (distance dict_size - 1 in the stream); one more and the decoder must refuse it
+        for dsz in (4096, 8192, 12288, 65536):
+            for per in (dsz - 1, dsz, dsz + 1, dsz + 2):
+                pd = (bytes(rng.getrandbits(8) for _ in range(per)) * 4)[:3 * per + 300]
+                for mf in ('hc3', 'hc4', 'bt2', 'bt3', 'bt4'):
+                    if ctx.quick() and rng.random() < 0.5 and per != dsz + 1: continue
+                    add(3, 0, 'lzma2:dict=%d,mf=%s,mode=%s,nice=%d' % (dsz, mf, rng.choice(['fast', 'normal']), rng.choice([8, 32, 273])), pd, 'raw dict=%d mf=%s on data with period %d' % (dsz, mf, per), mode=rng.choice([0, 3]), dec=('raw', 'lzma2:dict=%d' % dsz))
+                if per == dsz + 1:
+                    add(4, 1 << 8, 'lzma1:dict=%d,mf=hc4' % dsz if False else 'lzma2:dict=%d,mf=hc4,depth=0' % dsz, pd, 'stream dict=%d hc4 on data with period %d' % (dsz, per), mode=0, dec=('xz', 0))
     # run encoders: group by bias so that one process handles one bias value
     bygroup = {}
     for j in jobs: bygroup.setdefault(j[4], []).append(j)
